@@ -1258,7 +1258,7 @@ theorem lookup_append_new {β} (l : List (String × β)) (k n : String) (v : β)
 theorem lookup_append_self {β} (l : List (String × β)) (k : String) (v : β) (h : l.lookup k = none) :
     (l ++ [(k, v)]).lookup k = some v := by
   induction l with
-  | nil => simp [List.lookup]
+  | nil => simp
   | cons a r ih =>
     obtain ⟨k', v'⟩ := a
     simp only [List.cons_append, List.lookup] at h ⊢
